@@ -67,3 +67,28 @@ Theorem build_target_order_ok :
   build_target_order = [SPreCheck; SCouldModify; SLoadMetadata; SAddMetadataOuts; SPostCheck; SUnchanged;
                         SRunCommand; SAddFoundOuts; SStoreMetadata; SMoveOutputs; SWriteRecord].
 Proof. reflexivity. Qed.
+
+(* ------------------------------------------------------------------------------------------ *)
+(* sourceHash, the temporary directory, filegroupBuilder.Build (follow-up of the seeded mutations C01/m1-m3, C03/m2) *)
+From PlzV Require Model.Engine.
+
+(* sourceHash (incrementality.go:112) writes, per source, the path hash AND the path; per output of a tool, the path hash
+   and nothing else - exactly the entries of the model's source key: (path, stream) for a source, (no path, stream)
+   for a tool output (Engine.key_of, Engine.anon_ins, Engine.source_key) *)
+Definition key_entry_writes (with_path : bool) : list hwrite := if with_path then [WHash; WPath] else [WHash].
+Theorem source_key_matches_source_hash :
+  source_hash_per_source = key_entry_writes true /\ source_hash_per_tool_output = key_entry_writes false
+  /\ (forall p n, Engine.key_of [(p, n)] = [(p, Engine.stream n)])
+  /\ (forall p n, Engine.key_of (Engine.anon_ins [(p, n)]) = [(Engine.nopath, Engine.stream n)]).
+Proof. repeat split. Qed.
+
+(* prepareDirectories removes and recreates the temporary directory before every build (prepareDirectory(tmpDir, true),
+   called by buildTarget before build()): the model's run_action computes the command on the sources alone *)
+Theorem tmp_dir_is_fresh : tmp_dir_removed_before_build = true.
+Proof. reflexivity. Qed.
+
+(* filegroupBuilder.Build: source exists, keep `to` when the hashes are equal, else RemoveAll(to), EnsureDir, link
+   recursively - the steps of Engine.build_filegroup (C03.filegroup_output_exact_or_kept is about exactly these) *)
+Theorem filegroup_build_steps_ok :
+  filegroup_build_steps = [FgSourceExists; FgSameHashKeep; FgRemoveAll; FgEnsureDir; FgLinkRecursively].
+Proof. reflexivity. Qed.
